@@ -173,6 +173,9 @@ def generate(tier, seed):
     cases.append(dict(kinds=['i32', 'i32'], alts=[['ne!(&7)', 'a0']], guard=None, form='simple'))
     cases.append(dict(kinds=['i32', 'i32', 'i32'], alts=[['a2', '_', 'eq!(&7)'], ['a2', '6', '_']], guard=None, form='disj'))
     cases.append(dict(kinds=['i32', 'i32'], alts=[['l0', 'eq!(&7)']], guard='*l0 > 3', form='disj'))
+    # (4e) alternatives of which only some carry eq!/ne! operands, under a guard whose top-level operator binds weaker than `&&`
+    cases.append(dict(kinds=['i32', 'i32'], alts=[['eq!(&1)', 'b'], ['2', 'b']], guard='*b == 0 || *b == 7', form='disj'))
+    cases.append(dict(kinds=['i32', 'i32'], alts=[['2', 'b'], ['ne!(&1)', 'b']], guard='*b == 0 || *b == 7', form='disj'))
     # (5) empty matcher
     cases.append(dict(kinds=[], alts=[[]], guard=None, form='empty'))
     # (5b) a function without arguments still has a pattern - the empty tuple - and may carry a guard (one and two alternatives)
